@@ -130,6 +130,24 @@ Theorem C38_cmdline_join : forall args e n,
 Proof. exact cmdline_env. Qed.
 Print Assumptions C38_cmdline_join.
 
+(* variables are identified by their exact name: setting name n (setenv, or one --mca/--gmca pair
+   through add_to_env / parsec_setenv) rebinds n and no other name — in particular no name that has
+   n as a prefix and no prefix of n *)
+Theorem C38_setenv_exact_name : forall e n v m,
+  env_get (env_set e n v) m = if str_eqb m n then Some v else env_get e m.
+Proof. exact env_get_set. Qed.
+Print Assumptions C38_setenv_exact_name.
+
+Theorem C38_add_to_env_other : forall kvs e n,
+  ~ In n (map fst kvs) -> env_get (add_to_env kvs e) n = env_get e n.
+Proof. exact add_to_env_other. Qed.
+Print Assumptions C38_add_to_env_other.
+
+Theorem C38_cmdline_other : forall args e n,
+  (forall a, In a args -> fst (snd a) <> n) -> env_get (process_cmdline args e) n = env_get e n.
+Proof. exact cmdline_other. Qed.
+Print Assumptions C38_cmdline_other.
+
 (* ---- the file stage after any history without a re-read of the files, in a table where no
    two parameters share a name: an uncached parameter sees the list read at initialisation *)
 Theorem C38_file_history_uncached : forall env files ops idx p,
@@ -196,6 +214,17 @@ Proof.
   - apply disjointb_ok. vm_compute. reflexivity.
   - vm_compute. repeat split.
 Qed.
+
+(* names in prefix relation on one command line, longer name first and shorter name first:
+   every name keeps its own value *)
+Example C38_prefix_names :
+  let fb := ["f"; "o"; "o"; "_"; "b"; "a"; "r"]%char in
+  let f := ["f"; "o"; "o"]%char in
+  let e1 := process_cmdline [(false, (fb, ["1"]%char)); (false, (f, ["2"]%char))] [] in
+  let e2 := process_cmdline [(false, (f, ["2"]%char)); (false, (fb, ["1"]%char)); (false, (f, ["3"]%char))] [] in
+  env_get e1 fb = Some ["1"]%char /\ env_get e1 f = Some ["2"]%char /\
+  env_get e2 fb = Some ["1"]%char /\ env_get e2 f = Some ["2"; ","; "3"]%char.
+Proof. vm_compute. repeat split. Qed.
 
 (* two parameters that share a name (a synonym of the second is the real name of the first): which of
    them gets the file value depends on who is looked up first — the reason for [pdisj] / [disjoint] *)
